@@ -56,6 +56,7 @@ def make_registry():
     reg.abstract_classes.add(f"{CN}:CustomNormalization")
     reg.inline.add(f"{CN}:<lambda>")  # the NORMALIZATION_PRESETS factories (interpreted, not trusted)
     reg.kind_is = kind_is
+    install_stubs(reg)
     reg.models[AnyStretch.__call__] = any_stretch_call
     reg.models[AnyStretch.__dict__["inverse"].fget] = any_stretch_inverse
     return reg
@@ -109,9 +110,9 @@ def choose(ctx, name, options):
 
 STRETCH = {
     # params, class invariant (established by __post_init__), identity condition, clips?, declared inverse class
-    # LinearStretch is under contract ONLY in the configuration the library constructs (CustomNormalization builds LinearStretch()):
-    # slope/intercept are not among the property's stretch parameters (power, logarithmic index, asinh range), see ASSUMPTIONS
-    "LinearStretch": dict(params=("slope", "intercept"), inv=lambda p: [("slope=1", p["slope"] == 1), ("intercept=0", p["intercept"] == 0)], ident=lambda p: AND(p["slope"] == 1, p["intercept"] == 0),
+    # LinearStretch: any slope / intercept; the stretch interface is claimed for the identity configuration only (the one the library
+    # constructs: CustomNormalization builds LinearStretch()), see ASSUMPTIONS
+    "LinearStretch": dict(params=("slope", "intercept"), inv=lambda p: [], ident=lambda p: AND(p["slope"] == 1, p["intercept"] == 0),
                           inverse="LinearStretch"),
     "PowerLawStretch": dict(params=("power",), inv=lambda p: [("power>0", p["power"] > 0)], ident=lambda p: p["power"] == 1,
                             inverse="PowerLawStretch"),
@@ -143,7 +144,7 @@ def stretch_interface_posts(old, new, adm=T, mono=None, strict=None, linear=Fals
     out = []
     for i, (a, b) in enumerate(zip(old, new)):
         out += [
-            (f"nan-in=>nan-out[{i}]", implies(a.nan, b.nan)),
+            (f"NaN-stays-NaN-through-the-stretch(so-it-comes-back-masked)[{i}]", implies(a.nan, b.nan)),
             # (a general linear stretch may turn +-inf into NaN: inf * 0)
             (f"number-in=>number-out[{i}]", implies(AND(a.number(), OR(adm, a.finite()) if linear else T), b.number())),
             (f"[0,1]-into-[0,1][{i}]", implies(AND(in01(a), adm), in01(b))),
@@ -310,7 +311,11 @@ def si_setup(name):
 
 
 def si_requires(s):
-    return list(stretch_inv(s.self))
+    r = list(stretch_inv(s.self))
+    if s.self.cls.__name__ == "LinearStretch":
+        # a constant map has no inverse (1 / slope: ZeroDivisionError for a Python float, inf for a NumPy float)
+        r.append(("slope!=0", sparams(s.self)["slope"] != 0))
+    return r
 
 
 def run_real(interp, fn, args, kwargs=None):
@@ -330,6 +335,7 @@ def si_ensures(s):
     if name == "LinearStretch":
         p, q = sparams(s.self), sparams(inv)
         out.append(("linear:inverse-of-y=s*x+i-is-x=y/s-i/s", AND(q["slope"] * p["slope"] == 1, q["intercept"] * p["slope"] == -p["intercept"])))
+        out.append(("linear:inverse-of-the-identity-is-the-identity(an-admissible-stretch)", implies(STRETCH[name]["ident"](p), STRETCH[name]["ident"](q))))
     if s.mode != "verify":
         return out
     y = s.y
@@ -344,8 +350,13 @@ def si_ensures(s):
         e, p = s.ctx.entails, sparams(s.self)
         tag = "[identity]" if e(AND(p["slope"] == 1, p["intercept"] == 0)) else \
             "[slope%s1,intercept%s0]" % ("=" if e(p["slope"] == 1) else "!=", "=" if e(p["intercept"] == 0) else "!=")
+    # RECORDED FINDING, matched as narrowly as possible: a NON-identity LinearStretch clips its argument to [0,1] before the affine map,
+    # so it cannot round-trip with its declared inverse (LinearStretch(2, 0.1): inverse(0) = -0.05 -> 0 -> 0.1).  Exactly this one
+    # clause is not claimed on exactly those paths (slope != 1 or intercept != 0); every other clause of __call__ / inverse holds
+    # for ALL slopes / intercepts and is proved.
+    claimed = not (name == "LinearStretch" and tag != "[identity]")
     out += [
-        ("stretch(inverse(y))=y-on-[0,1]" + tag, implies(in01(y0), AND(z0.finite(), z0.val == y0.val))),
+        *([("stretch(inverse(y))=y-on-[0,1]" + tag, implies(in01(y0), AND(z0.finite(), z0.val == y0.val)))] if claimed else []),
         ("inverse-maps-[0,1]-into-[0,1]", implies(in01(y0), in01(t.elems[0])) if name != "LinearStretch" else T),
         ("NaN-stays-NaN-through-both", implies(y0.nan, z0.nan)),
         ("argument-not-written", z3.BoolVal(y.writes == 0)),
@@ -384,6 +395,15 @@ class Opt(Kind):
 
     def sanitized(self):
         return Opt(self.none, self.num.sanitized())
+
+    def _pyvc_truth(self, interp):
+        """Python truth value: None is falsy, and so is a number that is exactly zero (0, 0.0, np.float32(0), np.int16(0))"""
+        return interp.ctx.branch(AND(NOT(self.none), self.num.val != 0))
+
+    def _pyvc_float(self, interp):
+        if interp.ctx.branch(self.none):
+            raise RaiseSig(TypeError("float() argument must be a string or a real number, not 'NoneType'"))
+        return Sym(self.num.val)
 
 
 def lazy_opt(ctx, name):
@@ -806,7 +826,7 @@ def call_ensures(s):
     ]
     out += kinded(s, lim, lims_machine(s))
     out += [
-        ("composition:masked(stretch(interval(value)))", z3.BoolVal(_composition_ok(s, res))),
+        ("composition:masked(stretch(interval(value)))", T if s.mode == "apply" else z3.BoolVal(_composition_ok(s, res))),
         ("argument-array-not-written", z3.BoolVal(s.value.writes == s.old.writes)), *frame_clauses(s, s.old.frame, READ_ONLY),
         ("normalization-object-unchanged", z3.BoolVal(_fields_id(s.self) == s.old.fields and _fields_id(fld(s.self, "interval")) == s.old.interval_fields
                                                         and _fields_id(fld(s.self, "stretch")) == s.old.stretch_fields)),
@@ -829,6 +849,7 @@ def _composition_ok(s, res):
 C_CALL = Contract(
     f"{CN}:CustomNormalization.__call__", setup=call_setup, requires=call_requires, ensures=call_ensures, snapshot=cn_snapshot,
     raises={ValueError: lambda s: limits_raise(s.old.interval, s.value)[ValueError], IndexError: lambda s: limits_raise(s.old.interval, s.value)[IndexError]},
+    result=lambda ctx, s: call_result(ctx, s),
 )
 
 
@@ -1013,6 +1034,8 @@ def init_raise(E):
 
 
 def init_ensures(s):
+    if s.mode == "apply":
+        return []  # the object state is built exactly as described (init_modifies)
     o = s.self
     kw = KW(s)
     pl = init_plan(s)
@@ -1031,9 +1054,19 @@ def init_ensures(s):
         out.append(("stretch-parameter-is-the-configured-one", rt_(fld(st, pn)) == rt_(pv)))
     out += [("stretch-admissible:" + a, b) for a, b in stretch_is_admissible(st)]
     # interval
+    if s.interval_type == "manual" and not (KW(s)["data"] is not None and KW(s)["data"].dt == "b"):
+        # THE CALLER'S manual limits are the interval's limits (with or without data: freezing keeps an explicit limit; a BOOLEAN
+        # image is the documented exception of _set_limits: its limits are always 0, 1) - stated
+        # separately for a limit that is exactly zero (Python 0, 0.0, np.float32(0), np.int16(0): all falsy) and any other number
+        for k in ("vmin", "vmax"):
+            if iv.cls is K("ManualInterval"):
+                for tag, c in zero_split(kw[k]):
+                    out.append((f"manual-limits-given-by-the-caller-are-the-interval's-limits[{k}]{tag}",
+                                implies(c, AND(NOT(onone(fld(iv, k))), oval(fld(iv, k)) == oval(kw[k])))))
     if KW(s)["data"] is None:
         out += [("interval-class-by-name", z3.BoolVal(iv.cls is pl.interval.cls)),
-                ("interval-parameters-are-the-configured-ones", z3.BoolVal(iv.cls is pl.interval.cls and all(iv.fields.get(k) is v for k, v in pl.interval.fields.items()))),
+                ("interval-parameters-are-the-configured-ones", AND(z3.BoolVal(iv.cls is pl.interval.cls and set(iv.fields) == set(pl.interval.fields)),
+                                                                    *[same_limit(iv.fields.get(k), v) for k, v in pl.interval.fields.items() if k in iv.fields])),
                 ("norm.vmin/vmax-are-the-arguments", AND(*[AND(onone(fld(o, "_" + k)) == onone(kw[k]), implies(NOT(onone(kw[k])), oval(fld(o, "_" + k)) == oval(kw[k]))) for k in ("vmin", "vmax")]))]
     else:
         if KW(s)["data"].dt == "b":
@@ -1055,10 +1088,24 @@ def init_ensures(s):
     return out
 
 
+def same_limit(got, want):
+    """the same optional number (None-ness and mathematical value; the value KIND may differ: float(x) is exact)"""
+    return AND(onone(got) == onone(want), implies(NOT(onone(want)), oval(got) == oval(want)))
+
+
+ZERO, NONZERO = "[limit-is-exactly-0(int-0,float-0.0,numpy-scalar-0)]", "[nonzero-limit]"
+
+
+def zero_split(x):
+    """[(tag, condition)]: the caller gave this limit, and it is exactly zero / any other number"""
+    given = NOT(onone(x))
+    return [(ZERO, z3.simplify(AND(given, oval(x) == 0))), (NONZERO, z3.simplify(AND(given, oval(x) != 0)))]
+
+
 C_INIT = Contract(
     f"{CN}:CustomNormalization.__init__", setup=init_setup, ensures=init_ensures,
     snapshot=lambda s: NS(data_sig=KW(s)["data"]._pyvc_signature() if KW(s)["data"] is not None else None),
-    raises={ValueError: init_raise(ValueError), IndexError: init_raise(IndexError)},
+    raises={ValueError: init_raise(ValueError), IndexError: init_raise(IndexError)}, modifies=lambda ctx, s: init_modifies(ctx, s),
 )
 
 # ---- _resolve_normalization / NORMALIZATION_PRESETS
@@ -1129,6 +1176,8 @@ def config_is_covered(get):
 
 
 def rn_ensures(s):
+    if s.mode == "apply":
+        return []  # the result IS the promised configuration (rn_result)
     r = s.result
     out = [("preset-table-is-exactly-the-module's", z3.BoolVal(set(MOD.NORMALIZATION_PRESETS) == set(PRESET_SPEC)))]
     if s.kind == "config":
@@ -1146,12 +1195,246 @@ def rn_ensures(s):
 
 C_RESOLVE = Contract(
     f"{CN}:_resolve_normalization", setup=rn_setup, ensures=rn_ensures,
-    raises={ValueError: lambda s: z3.BoolVal(s.kind == "unknown-preset"), TypeError: lambda s: z3.BoolVal(s.kind == "bad-type")},
+    raises={ValueError: lambda s: z3.BoolVal(rn_kind(s) == "unknown-preset"), TypeError: lambda s: z3.BoolVal(rn_kind(s) == "bad-type")},
+    result=lambda ctx, s: rn_result(ctx, s),
 )
 
-SPEC_ONLY = [C_ABS_LIMITS]
+# ------------------------------------------------------------------------------------------------
+# call sites: the display entry point builds ONE normaliser from the user's arguments and applies it to the user's array
+# (visualization.py:_show_2d_array).  Callees are used through their contracts: _resolve_normalization, CustomNormalization.__init__
+# (-> _set_limits -> get_limits) and CustomNormalization.__call__; the matplotlib side is outside the property (stub figure / axes
+# objects passed as `figax`, array_to_rgba specification-only).
+# ------------------------------------------------------------------------------------------------
+
+VIZ = "quantem.core.visualization.visualization"
+VIZU = "quantem.core.visualization.visualization_utils"
+CFG_FIELDS = tuple(CONFIG_DEFAULTS)
+
+
+def rn_kind_apply(s):
+    n = s.norm
+    if n is None:
+        return "none", ()
+    if isinstance(n, dict):
+        return "dict", None
+    if isinstance(n, str):
+        return ("preset", n) if n in PRESET_SPEC else ("unknown-preset", n)
+    if (isinstance(n, Obj) and n.cls is K("NormalizationConfig")) or isinstance(n, K("NormalizationConfig")):
+        return "config", None
+    return "bad-type", None
+
+
+def rn_kind(s):
+    if s.mode == "apply" and "kind" not in s.__dict__:
+        s.kind, s.arg = rn_kind_apply(s)
+    return s.kind
+
+
+def rn_result(ctx, s):
+    """call site: the configuration the documentation promises for (norm, keywords)"""
+    if rn_kind(s) == "config":
+        return s.norm
+    exp = cfg_expected(s)
+    if any(k not in CONFIG_DEFAULTS for k in exp):
+        raise RaiseSig(TypeError("NormalizationConfig() got an unexpected keyword argument"))
+    return Obj(K("NormalizationConfig"), exp)
+
+
+def _sanitize(v):
+    return v.sanitized() if hasattr(v, "sanitized") else v
+
+
+def init_modifies(ctx, s):
+    """call site: the object state the constructor contract describes (interval / stretch objects as configured, limits frozen
+    from the data through _set_limits' own contract)"""
+    o, kw, pl = s.self, KW(s), init_plan(s)
+    if not isinstance(s.interval_type, str) or not isinstance(s.stretch_type, str) or pl.interval is None:
+        raise V.OutOfSubset("CustomNormalization(...) with a symbolic interval / stretch name at a call site")
+    if ctx.branch(pl.power_sel):
+        st = Obj(K("PowerLawStretch"), dict(power=kw["power"]))
+    else:
+        name = STYPES[s.stretch_type]
+        st = Obj(K(name), {"LinearStretch": dict(slope=1.0, intercept=0.0), "LogarithmicStretch": dict(a=kw["logarithmic_index"]),
+                           "InverseHyperbolicSineStretch": dict(a=kw["asinh_linear_range"])}.get(name) or dict(power=kw["power"]))
+    o.fields.update(interval=pl.interval, stretch=st, _vmin=_sanitize(kw["vmin"]), _vmax=_sanitize(kw["vmax"]), _clip=False, _scale=None)
+    ctx.ghost.setdefault("norm_built", []).append(NS(obj=o, args={k: (s.__dict__[k] if k in ("interval_type", "stretch_type") else kw[k]) for k in CFG_FIELDS},
+                                                     data=kw["data"], configured_interval=pl.interval))
+    if kw["data"] is not None:
+        s.interp.call(s.interp.getattr(o, "_set_limits"), [kw["data"]], {})
+
+
+def call_result(ctx, s):
+    """call site: a masked array of the argument's shape; its entries are described by the postconditions"""
+    s._lims = s.interp.call(s.interp.getattr(fld(s.self, "interval"), "get_limits"), [s.value], {})
+    els = _fresh_elems(ctx, "normalised", len(s.value.elems))
+    res = PMasked(els, [ctx.fresh(f"normalised_mask{j}", "bool").t for j in range(len(els))], PArr(els, "f", None, "normalised"))
+    ctx.ghost.setdefault("norm_calls", []).append(NS(self=s.self, value=s.value, result=res))
+    return res
+
+
+class Rgba(Kind):
+    """opaque RGBA image; `src` = the scaled-amplitude array it was computed from"""
+    _pyvc_value = True
+
+    def __init__(self, src):
+        Kind.__init__(self, "rgba-image")
+        self.src = src
+
+
+C_RGBA = Contract(f"{VIZU}:array_to_rgba", setup=lambda ctx: NS(scaled_amplitude=fresh_parr(ctx, "scaled", "f")), ensures=lambda s: [],
+                  result=lambda ctx, s: Rgba(s.scaled_amplitude), note="specification only: colour mapping is outside the property")
+
+
+class StubAxes:
+    """a figure's axes as far as _show_2d_array uses them (duck-typed `figax` argument; models in install_stubs)"""
+
+    def imshow(self, image, **kw):
+        raise NotImplementedError
+
+    def set(self, **kw):
+        raise NotImplementedError
+
+    @property
+    def spines(self):
+        raise NotImplementedError
+
+
+def install_stubs(reg):
+    def imshow(interp, self, image, **kw):
+        self.fields["shown"] = image  # ghost: what is displayed
+
+    reg.models[StubAxes.imshow] = imshow
+    reg.models[StubAxes.set] = lambda interp, self, **kw: None
+    reg.models[StubAxes.__dict__["spines"].fget] = lambda interp, self: {}
+
+
+class StubFigure:
+    pass
+
+
+SHOW_CASES = [("none", ()), ("none", ("vmin",)), ("none", ("vmax",)), ("none", ("vmin", "vmax")), ("none", ("lower_quantile", "upper_quantile")),
+              ("dict", "manual"), ("config", "manual"), ("preset", "log_minmax"), ("preset", "linear_centered"), ("preset", "power_sqrt")]
+
+
+def show_setup(ctx):
+    kind, arg = choose(ctx, "case", SHOW_CASES)
+    s = NS(kind=kind, arg=arg, array=data_arr(ctx, "array", kinds=("f", "i")))
+    s.case = f"{kind}:{arg}"
+    s.fig, s.ax = Obj(StubFigure, {}), Obj(StubAxes, {})
+    extra, norm = {}, None
+    if kind == "none":
+        for k in arg:
+            # a limit keyword of ANY kind and value (exact zeros included); quantiles are reals
+            extra[k] = fresh_numval(ctx, "kw_" + k) if k in ("vmin", "vmax") else ctx.fresh("kw_" + k, "real")
+    elif kind == "dict":
+        norm = dict(interval_type="manual", stretch_type="logarithmic", vmin=fresh_numval(ctx, "d_vmin"), vmax=fresh_numval(ctx, "d_vmax"))
+    elif kind == "config":
+        norm = Obj(K("NormalizationConfig"), dict(CONFIG_DEFAULTS, interval_type="manual", vmin=lazy_opt(ctx, "c_vmin"), vmax=lazy_opt(ctx, "c_vmax")))
+    else:
+        norm = arg
+    s.norm_arg, s.extra = norm, extra
+    s.kwargs = dict(norm=norm, figax=(s.fig, s.ax), **extra)
+    # the configuration the documentation of `norm` / the keywords promises
+    e = NS(kind=kind, arg=arg, kwargs=extra, norm=norm)
+    s.expected = dict(norm.fields) if kind == "config" else cfg_expected(e)
+    s.exp_interval = init_plan(NS(interval_type=s.expected["interval_type"], stretch_type=s.expected["stretch_type"], kwargs=dict(s.expected, data=None))).interval
+    return s
+
+
+def show_raise(E):
+    # the limits cannot be derived from an array without finite entries / quantiles outside [0, 1] (contracts of get_limits)
+    return lambda s: limits_raise(s.exp_interval, s.array)[E]
+
+
+def show_ensures(s):
+    g = s.ctx.ghost
+    built, calls = g.get("norm_built", []), g.get("norm_calls", [])
+    if len(built) != 1:
+        return [("exactly-one-normaliser-is-built", F_)]
+    b = built[0]
+    out = [("exactly-one-normaliser-is-built", T)]
+    for k, v in s.expected.items():
+        got = b.args[k]
+        same = same_limit(got, v) if k in ("vmin", "vmax", "half_range") else veq_field(got, v)
+        out.append((f"normaliser-receives-the-resolved-configuration:{k}", same))
+    out += [("normaliser-limits-are-frozen-from-the-caller's-array(data=)", z3.BoolVal(b.data is s.array)),
+            ("normaliser-is-applied-exactly-once,to-the-caller's-array", z3.BoolVal(len(calls) == 1 and calls[0].self is b.obj and calls[0].value is s.array))]
+    shown = s.ax.fields.get("shown")
+    out.append(("the-image-shown-is-computed-from-the-normalised-array", z3.BoolVal(len(calls) == 1 and isinstance(shown, Rgba) and shown.src is calls[0].result)))
+    out.append(("returns-the-given-figure-and-axes", z3.BoolVal(isinstance(s.result, tuple) and len(s.result) == 2 and s.result[0] is s.fig and s.result[1] is s.ax)))
+    out.append(("caller's-array-not-written", z3.BoolVal(s.array.writes == s.old.writes)))
+    # THE PROPERTY'S limit clause at the entry point: limits the user gave are the limits of the normaliser that is applied
+    user = {"none": s.extra, "dict": s.norm_arg if s.kind == "dict" else {}, "config": s.norm_arg.fields if s.kind == "config" else {}}.get(s.kind, {})
+    iv = fld(b.obj, "interval")
+    for k in ("vmin", "vmax"):
+        if k in user and isinstance(iv, Obj) and iv.cls is K("ManualInterval"):
+            for tag, c in zero_split(user[k]):
+                out.append((f"manual-limits-given-by-the-caller-are-the-normaliser's-limits[{k}]{tag}",
+                            implies(c, AND(NOT(onone(fld(iv, k))), oval(fld(iv, k)) == oval(user[k])))))
+    return out + frame_clauses(s, s.old.frame, {"array": "array(read-only-input)"})
+
+
+C_SHOW = Contract(f"{VIZ}:_show_2d_array", setup=show_setup, ensures=show_ensures,
+                  snapshot=lambda s: NS(frame=frame_snapshot(s, ["array"]), writes=s.array.writes),
+                  raises={ValueError: show_raise(ValueError), IndexError: show_raise(IndexError)})
+
+
+# ---- _show_2d_combined: one normaliser from the same arguments (no data=: each array is normalised with its own limits inside
+# list_of_arrays_to_rgba, which receives THE normaliser built here)
+
+
+def lrgba_result(ctx, s):
+    r = Rgba(None)
+    r.arrays, r.norm = list(s.list_of_arrays), s.norm
+    return r
+
+
+C_LRGBA = Contract(f"{VIZU}:list_of_arrays_to_rgba", setup=lambda ctx: NS(list_of_arrays=[fresh_parr(ctx, "a0", "f")]), ensures=lambda s: [],
+                   result=lrgba_result, note="specification only: applies `norm` to every array and mixes colours (colour mixing is outside the property)")
+
+
+def comb_setup(ctx):
+    s = show_setup(ctx)
+    s.arrays = [s.array, data_arr(ctx, "array2", kinds=("f",))]
+    s.list_of_arrays = list(s.arrays)
+    del s.__dict__["array"]
+    return s
+
+
+def comb_ensures(s):
+    built = s.ctx.ghost.get("norm_built", [])
+    if len(built) != 1:
+        return [("exactly-one-normaliser-is-built", F_)]
+    b = built[0]
+    out = [("exactly-one-normaliser-is-built", T)]
+    for k, v in s.expected.items():
+        got = b.args[k]
+        out.append((f"normaliser-receives-the-resolved-configuration:{k}", same_limit(got, v) if k in ("vmin", "vmax", "half_range") else veq_field(got, v)))
+    shown = s.ax.fields.get("shown")
+    ok = isinstance(shown, Rgba) and getattr(shown, "norm", None) is b.obj and len(getattr(shown, "arrays", ())) == len(s.arrays) \
+        and all(x is y for x, y in zip(shown.arrays, s.arrays))
+    out += [("limits-are-not-frozen-from-one-of-the-arrays(each-array-gets-its-own)", z3.BoolVal(b.data is None)),
+            ("the-image-shown-is-the-caller's-arrays-under-THE-normaliser-built-here", z3.BoolVal(ok)),
+            ("returns-the-given-figure-and-axes", z3.BoolVal(isinstance(s.result, tuple) and len(s.result) == 2 and s.result[0] is s.fig and s.result[1] is s.ax)),
+            ("caller's-arrays-not-written", z3.BoolVal(all(a.writes == 0 for a in s.arrays))),
+            ("caller's-list-not-modified", z3.BoolVal(len(s.list_of_arrays) == len(s.arrays) and all(x is y for x, y in zip(s.list_of_arrays, s.arrays))))]
+    user = {"none": s.extra, "dict": s.norm_arg if s.kind == "dict" else {}, "config": s.norm_arg.fields if s.kind == "config" else {}}.get(s.kind, {})
+    iv = fld(b.obj, "interval")
+    for k in ("vmin", "vmax"):
+        if k in user and isinstance(iv, Obj) and iv.cls is K("ManualInterval"):
+            for tag, c in zero_split(user[k]):
+                out.append((f"manual-limits-given-by-the-caller-are-the-normaliser's-limits[{k}]{tag}",
+                            implies(c, AND(NOT(onone(fld(iv, k))), oval(fld(iv, k)) == oval(user[k])))))
+    return out
+
+
+C_COMB = Contract(f"{VIZ}:_show_2d_combined", setup=comb_setup, ensures=comb_ensures,
+                  raises={})  # without data= nothing is computed from the arrays here: no exception is expected on any path
+
+
+SPEC_ONLY = [C_ABS_LIMITS, C_RGBA, C_LRGBA]
 CONTRACTS = ([C_STRETCH_CALL[n] for n in STRETCH_NAMES] + [C_STRETCH_INV[n] for n in STRETCH_NAMES]
-             + [C_LIMITS[n] for n in INTERVALS] + [C_BI_CALL, C_BI_INV, C_CALL, C_CINV, C_SETLIM, C_INIT, C_RESOLVE])
+             + [C_LIMITS[n] for n in INTERVALS] + [C_BI_CALL, C_BI_INV, C_CALL, C_CINV, C_SETLIM, C_INIT, C_RESOLVE, C_SHOW, C_COMB])
 
 # ------------------------------------------------------------------------------------------------
 # run-time oracles: the same statements evaluated on the REAL classes with concrete inputs (replay + bounded stand-ins)
@@ -1198,8 +1481,6 @@ def rt_stretch(inp):
         return dict(violated=False, observed="invalid parameters rejected by __post_init__", expected="-")
     name = inp["cls"]
     linear = name == "LinearStretch"
-    if linear and (params.get("slope", 1.0) != 1.0 or params.get("intercept", 0.0) != 0.0):
-        return dict(violated=False, observed="non-identity LinearStretch: outside the contract (see ASSUMPTIONS)", expected="-")
     ident = (linear and params.get("slope", 1.0) == 1.0 and params.get("intercept", 0.0) == 0.0) or (name == "PowerLawStretch" and params.get("power", 1.0) == 1.0)
     x = _arr(inp.get("xs", [0.0, 0.25, 1.0]))
     x0 = x.copy()
@@ -1224,6 +1505,8 @@ def rt_stretch(inp):
                 problems.append(f"{xi} is not a fixed point: -> {yi}")
             if not linear and not ident and not (-1e-12 <= yi <= 1 + 1e-12):
                 problems.append(f"x={xi} -> {yi} outside [0,1]")
+            if linear and 0 <= xi <= 1 and abs(yi - (params.get("slope", 1.0) * xi + params.get("intercept", 0.0))) > 1e-12:
+                problems.append(f"x={xi} -> {yi}, documented y = slope*x + intercept = {params.get('slope', 1.0) * xi + params.get('intercept', 0.0)}")
         if not linear or params.get("slope", 1.0) >= 0:
             m = _monotone_problem(x0, y, 1e-12)
             if m:
@@ -1231,6 +1514,10 @@ def rt_stretch(inp):
         # declared inverse
         if not (linear and params.get("slope", 1.0) == 0):
             inv = st.inverse
+            if linear and (abs(inv.slope * params.get("slope", 1.0) - 1) > 1e-12 or abs(inv.intercept * params.get("slope", 1.0) + params.get("intercept", 0.0)) > 1e-12):
+                problems.append(f"inverse of y = s*x + i is not x = y/s - i/s: {inv}")
+        # (the round trip of a NON-identity LinearStretch is the recorded finding: not claimed, see ASSUMPTIONS)
+        if not (linear and not ident):
             if type(inv).__name__ != STRETCH[name]["inverse"]:
                 problems.append(f"inverse is a {type(inv).__name__}")
             yy = _arr(inp.get("ys", [0.0, 0.05, 0.3, 0.5, 0.77, 1.0]))
@@ -1249,6 +1536,8 @@ def fam_stretch(tier="quick", seed=0):
     grid = [0.01, 0.1, 1.0 / 3.0, 0.5, 1.0, 2.0, 10.0, 1000.0] + ([0.03, 0.7, 3.0, 30.0, 400.0] if tier == "thorough" else [])  # (0.003 would underflow 0.05**333 in float64)
     for copy in (True, False):
         yield dict(cls="LinearStretch", params={}, xs=xs, copy=copy)
+        for sl, ic in ((2.0, 0.1), (0.5, 0.0), (1.0, -0.25), (0.0, 0.5)):
+            yield dict(cls="LinearStretch", params=dict(slope=sl, intercept=ic), xs=xs, copy=copy)
         for v in grid:
             yield dict(cls="PowerLawStretch", params=dict(power=v), xs=xs, copy=copy)
             for c in ("LogarithmicStretch", "InverseLogarithmicStretch"):
@@ -1571,6 +1860,10 @@ def rt_norm(inp):
         pc = _plain(cfg)
         if pc.get("interval_type") == "centered" and pc.get("half_range") is not None and (lo, hi) != (float(pc.get("vcenter", 0.0) - pc["half_range"]), float(pc.get("vcenter", 0.0) + pc["half_range"])):
             problems.append(f"limits ({lo}, {hi}) are not vcenter -+ half_range = ({pc.get('vcenter', 0.0) - pc['half_range']}, {pc.get('vcenter', 0.0) + pc['half_range']})")
+        if pc.get("interval_type") == "manual":
+            for k, got in (("vmin", lo), ("vmax", hi)):
+                if pc.get(k) is not None and got != float(pc[k]):
+                    problems.append(f"manual limit {k}={pc[k]!r} given by the caller, but the normaliser's {k} is {got}")
         if not np.array_equal(x, x0, equal_nan=True):
             problems.append("input array modified")
         if not isinstance(out, np.ma.MaskedArray):
@@ -1631,7 +1924,8 @@ def fam_norm(tier="quick", seed=0):
                 for given in (True, False):
                     yield dict(preset=preset, xs=xs, dtype=dtype, dataset=dname, data_given=given)
             for cfg in (dict(interval_type="manual", vmin=1.0, vmax=6.5, stretch_type="logarithmic", logarithmic_index=7.0),
-                        dict(interval_type="manual", vmin=10, vmax=200), dict(interval_type="centered", vcenter=100),
+                        dict(interval_type="manual", vmin=10, vmax=200), dict(interval_type="manual", vmin=0, vmax=5.0), dict(interval_type="manual", vmin=-2.0, vmax=0.0),
+                        dict(interval_type="centered", vcenter=100),
                         dict(interval_type="centered", vcenter=1.0, half_range=3.0, stretch_type="asinh", asinh_linear_range=0.4),
                         dict(interval_type="quantile", lower_quantile=0.1, upper_quantile=0.6, power=0.3)):
                 yield dict(config=cfg, xs=xs, dtype=dtype, dataset=dname, data_given=True)
@@ -1671,7 +1965,7 @@ def conc_norm(ev):
 
 def rt_init(inp):
     """configuration -> interval / stretch objects, as the class docstring describes it (a power != 1 selects the power law)."""
-    cfg = dict(inp["config"])
+    cfg = _decd(dict(inp["config"]))
     itype, stype, power = cfg.get("interval_type", "quantile"), cfg.get("stretch_type", "linear"), cfg.get("power", 1.0)
     exp_err = itype not in ITYPES or (stype != "power" and power == 1.0 and stype not in STYPES) or power <= 0
     x = _arr(inp["xs"]) if inp.get("xs") else None
@@ -1700,12 +1994,20 @@ def rt_init(inp):
             lo, hi = (float(v) for v in ref.get_limits(x))
             if type(n.interval).__name__ != "ManualInterval" or (n.interval.vmin, n.interval.vmax) != (lo, hi) or (n.vmin, n.vmax) != (lo, hi):
                 problems.append(f"limits not frozen to those of the configured interval on the data ({lo}, {hi}): {n.interval}, vmin/vmax=({n.vmin}, {n.vmax})")
+        if itype == "manual":
+            # the caller's manual limits are the interval's limits (a limit that is exactly zero included)
+            for k in ("vmin", "vmax"):
+                if cfg.get(k) is not None and (getattr(n.interval, k, None) is None or float(getattr(n.interval, k)) != float(cfg[k])):
+                    problems.append(f"manual limit {k}={cfg[k]!r} given by the caller, the interval has {k}={getattr(n.interval, k, None)!r}")
     return dict(violated=bool(problems), observed="; ".join(problems[:3]) or "ok", expected="interval and stretch objects as configured; limits frozen from data")
 
 
 def fam_init(tier="quick", seed=0):
     for itype, extra in (("quantile", {}), ("quantile", dict(lower_quantile=0.1, upper_quantile=0.7)), ("manual", {}), ("manual", dict(vmin=1.0)), ("manual", dict(vmin=-1.0, vmax=2.5)),
-                         ("centered", {}), ("centered", dict(vcenter=2.0, half_range=3.0)), ("bogus", {})):
+                         # manual limits that are exactly zero, in every kind a caller may write them
+                         ("manual", dict(vmin=0, vmax=5)), ("manual", dict(vmin=0.0)), ("manual", dict(vmin=-4.0, vmax=0.0)), ("manual", dict(vmin=NP("float32", 0.0), vmax=NP("float32", 2.0))),
+                         ("manual", dict(vmin=NP("int16", -3), vmax=NP("int16", 0))),
+                         ("centered", {}), ("centered", dict(vcenter=2.0, half_range=3.0)), ("centered", dict(vcenter=0, half_range=0.5)), ("bogus", {})):
         for stype, sx in (("linear", {}), ("power", dict(power=2.0)), ("power", {}), ("logarithmic", dict(logarithmic_index=10.0)), ("logarithmic", dict(power=2.0)),
                           ("asinh", dict(asinh_linear_range=0.3)), ("asinh", dict(power=0.5)), ("linear", dict(power=3.0)), ("bogus", {}), ("bogus", dict(power=2.0)), ("linear", dict(power=-1.0))):
             for xs in (None, DATASETS["negatives"], DATASETS["nan-inf"]):
@@ -1785,6 +2087,8 @@ def klass_show(inp, res):
 
 def fam_show(tier="quick", seed=0):
     yield dict(vmin=1.0, vmax=3.0)
+    yield dict(vmin=0.0, vmax=3.0)  # limits that are exactly zero
+    yield dict(vmin=-2.5, vmax=0)
 
 
 def rt_zero_d(inp):
@@ -1836,6 +2140,71 @@ for _c in (C_CALL, C_CINV, C_SETLIM):
 C_INIT.rt, C_INIT.rt_family = rt_init_m, fam_init
 C_CALL.concretize = conc_norm
 C_RESOLVE.rt, C_RESOLVE.rt_family = rt_resolve, (lambda: iter([{}]))
+
+
+def rt_show(inp):
+    """The entry point on real arrays: the one normaliser it builds receives the configuration resolved from (norm, keywords),
+    the caller's array as data (single-array form), and limits given by the caller are that normaliser's limits."""
+    import matplotlib
+
+    matplotlib.use("Agg")
+    import matplotlib.pyplot as plt
+    from quantem.core.visualization import visualization as viz
+
+    built = []
+    real = viz.CustomNormalization
+
+    class Spy(real):
+        def __init__(self, *a, **kw):
+            built.append((self, dict(kw)))
+            super().__init__(*a, **kw)
+
+    norm = inp.get("norm")
+    norm = _decd(norm) if isinstance(norm, dict) else norm
+    kw = _decd(inp.get("kw", {}))
+    x = _arr(inp.get("xs", DATASETS["negatives"] + [3.0, 4.0])).reshape(2, -1)
+    combined = inp.get("fn") == "_show_2d_combined"
+    problems = []
+    viz.CustomNormalization = Spy
+    try:
+        with _quiet():
+            try:
+                fig, ax = (viz._show_2d_combined([x, x.T.copy().reshape(x.shape)], norm=norm, **kw) if combined else viz._show_2d_array(x, norm=norm, **kw))
+                plt.close(fig)
+            except Exception as e:
+                plt.close("all")
+                return dict(violated=True, observed=f"raised {type(e).__name__}: {e}", expected="a figure")
+        exp = MOD._resolve_normalization(norm, **kw)
+        if len(built) != 1:
+            problems.append(f"{len(built)} normalisers built")
+        else:
+            obj, got = built[0]
+            for f in CONFIG_DEFAULTS:
+                if f in got and got[f] is not getattr(exp, f) and got[f] != getattr(exp, f):
+                    problems.append(f"{f}={getattr(exp, f)!r} of the resolved configuration reaches CustomNormalization as {got[f]!r}")
+            if not combined and got.get("data") is not x:
+                problems.append("the caller's array is not passed as data=")
+            user = dict(norm if isinstance(norm, dict) else {}, **{k: v for k, v in kw.items() if k in ("vmin", "vmax")})
+            if exp.interval_type == "manual":
+                for k in ("vmin", "vmax"):
+                    if user.get(k) is not None and (getattr(obj.interval, k) is None or float(getattr(obj.interval, k)) != float(user[k])):
+                        problems.append(f"the caller's limit {k}={user[k]!r} is not the normaliser's limit ({getattr(obj.interval, k)!r})")
+    finally:
+        viz.CustomNormalization = real
+    return dict(violated=bool(problems), observed="; ".join(problems[:3]) or "ok", expected="one normaliser, built from the resolved configuration and the caller's array; given limits are its limits")
+
+
+def fam_show_calls(tier="quick", seed=0):
+    for fn in ("_show_2d_array", "_show_2d_combined"):
+        for norm, kw in ((None, {}), (None, dict(vmin=0)), (None, dict(vmax=0.0)), (None, dict(vmin=-1.0, vmax=3)), (None, dict(vmin=NP("float32", 0.0), vmax=NP("float32", 2.5))),
+                         (None, dict(lower_quantile=0.1, upper_quantile=0.9)), (dict(interval_type="manual", vmin=0, vmax=NP("int16", 7), stretch_type="logarithmic"), {}),
+                         (dict(interval_type="centered", vcenter=0, half_range=2.0), {}), ("log_minmax", {}), ("power_sqrt", {}), ("linear_centered", {})):
+            yield dict(fn=fn, norm=norm, kw=kw)
+
+
+C_SHOW.rt = C_COMB.rt = _memo(rt_show)
+C_SHOW.rt_family = lambda: (i for i in fam_show_calls() if i["fn"] == "_show_2d_array")
+C_COMB.rt_family = lambda: (i for i in fam_show_calls() if i["fn"] == "_show_2d_combined")
 
 # ------------------------------------------------------------------------------------------------
 # property-level lemmas (from the contract statements alone)
@@ -1900,10 +2269,12 @@ BOUNDED = [
                     "6 classes, 8 (13 thorough) parameter values, 15 inputs, copy True/False; float64"),
     Bounded.from_rt("intervals: dtype sweep", rt_interval, fam_interval, "9 dtypes (float16/32/64, int8..64, uint8/16) x 8 data sets x 12 interval configurations", klass=klass_dtype),
     Bounded.from_rt("CustomNormalization: dtype x preset sweep with NaN/inf entries", rt_norm, fam_norm,
-                    "10 dtypes x <=9 data sets x (10 presets + 5 explicit configurations) x data given / not given; 1-d, 2-d, 3-d", klass=klass_norm),
-    Bounded.from_rt("CustomNormalization.__init__: configuration -> interval / stretch objects", rt_init, fam_init, "8 interval x 11 stretch configurations x (no data, 2 data sets)"),
+                    "10 dtypes x <=9 data sets x (10 presets + 7 explicit configurations incl. exact-zero manual limits) x data given / not given; 1-d, 2-d, 3-d", klass=klass_norm),
+    Bounded.from_rt("CustomNormalization.__init__: configuration -> interval / stretch objects", rt_init, fam_init, "14 interval configurations (incl. manual limits that are exactly zero as int / float / NumPy scalars) x 11 stretch configurations x (no data, 2 data sets)"),
     Bounded.from_rt("presets resolve to what their names promise (real objects)", rt_resolve, lambda: iter([{}]), "all presets + keyword forms + 2 rejected inputs"),
-    Bounded.from_rt("display entry points pass the configured limits on", rt_show_wiring, fam_show, "_show_2d_array, _show_2d_combined; one manual configuration", klass=klass_show),
+    Bounded.from_rt("display entry points pass the configured limits on", rt_show_wiring, fam_show, "_show_2d_array, _show_2d_combined; three manual configurations (two with a limit that is exactly 0); "
+                    "real matplotlib figures (figax=None), complementing the contracts of the two functions", klass=klass_show),
+    Bounded.from_rt("display entry points: real figures, keyword / dict / preset forms", rt_show, fam_show_calls, "2 entry points x 11 (norm, keyword) forms incl. exact-zero and NumPy-scalar limits; figax=None"),
     Bounded.from_rt("0-d array", rt_zero_d, lambda: iter([dict(x=1.0)]), "one 0-d input",
                     klass=lambda inp, res: "0-d-input-raises-TypeError" if "TypeError: return arrays must be of ArrayType" in str(res.get("observed")) else "any"),
 ]
@@ -1923,6 +2294,12 @@ TRUSTED = [
     "(what happens on overflow is left open); with a float operand the result is an exact float64; float()/.item() are exact; np.min/np.max of an integer array return a scalar of the array's dtype",
     "np.quantile(..., overwrite_input=True) permutes its argument in place, and a ravel() view writes through to the caller's array (frame clauses)",
     "@dataclass constructors bind fields positionally / by keyword / default and call __post_init__ (generated __init__ has no source)",
+    "np.maximum / np.minimum propagate NaN, np.fmax / np.fmin ignore it (NaN entry -> the other operand); np.nan_to_num replaces NaN / +-inf by numbers; np.percentile(a, p) = "
+    "np.quantile(a, p/100); np.nanquantile / np.nanpercentile skip NaN but not +-inf; np.iscomplexobj of a real-valued array is False; bool(x) of a number is x != 0 (exact zeros of every "
+    "kind are falsy), float(None) raises TypeError",
+    "display entry points (_show_2d_array, _show_2d_combined): the matplotlib side is outside the property - figure / axes are duck-typed stub objects passed as `figax` (imshow records "
+    "what is shown), array_to_rgba / list_of_arrays_to_rgba are specification-only (an opaque image that remembers the array / (arrays, normaliser) it was computed from), "
+    "_resolve_scalebar and config.get run as they are; the figax=None branch (plt.subplots), colour bars and scale bars are not covered",
     "dynamic dispatch by behavioural subtyping (meta-level): BaseInterval.__call__/inverse verified against the abstract get_limits specification, every override verified against "
     "its own stronger contract; CustomNormalization.__call__/inverse verified against the stretch interface (AnyStretch), every stretch class verified to implement it",
 ]
@@ -1936,16 +2313,24 @@ ASSUMPTIONS = [
     "`two distinct finite values` implies vmin < vmax for data min/max and centred limits (lemma), NOT for every quantile pair (e.g. 60 zeros and a single 1 with the default 2%/98% quantiles)",
     "configuration strings are enumerated as {each literal the code compares against, one other string}; integer data in __init__ is covered by the float case (see comment in init_setup)",
     "CustomNormalization.inverse is specified for explicit (frozen) limits only: BaseInterval.inverse asks get_limits about the NORMALISED values",
-    "LinearStretch is under contract only as the identity LinearStretch() (slope=1, intercept=0), the one configuration CustomNormalization builds; slope/intercept are not "
-    "among the property's stretch parameters. A non-identity LinearStretch cannot both map [0,1] into [0,1] and round-trip: __call__ clips its argument to [0,1] before the affine "
-    "map, e.g. LinearStretch(2, 0.1): inverse(0) = -0.05 -> clipped to 0 -> stretch gives 0.1 != 0; LinearStretch(0.5, 0): inverse(1) = 2 -> clipped to 1 -> 0.5 != 1 (noted, not claimed)",
+    "LinearStretch.__call__ / inverse are under contract for EVERY slope / intercept (NaN stays NaN, y = slope*x + intercept on [0,1], monotone for slope >= 0, copy / in-place "
+    "semantics, inverse = (1/slope, -intercept/slope) for slope != 0); the stretch INTERFACE ([0,1] into [0,1], fixes 0 and 1) is claimed for the identity LinearStretch() only - the one "
+    "configuration CustomNormalization builds (slope/intercept are not among the property's stretch parameters). RECORDED FINDING (not claimed, matched by exactly one clause on exactly "
+    "the non-identity paths): `stretch(inverse(y)) = y on [0,1]` fails for a non-identity LinearStretch because __call__ clips its argument to [0,1] before the affine "
+    "map, e.g. LinearStretch(2, 0.1): inverse(0) = -0.05 -> clipped to 0 -> stretch gives 0.1 != 0; LinearStretch(0.5, 0): inverse(1) = 2 -> clipped to 1 -> 0.5 != 1",
     "limits given as NumPy scalars: integer scalars of ONE dtype per expression are modelled with machine arithmetic (clauses tagged [numpy-int-scalar-limits]); mixed integer dtypes "
     "(NumPy promotion) and the overflow of narrow FLOAT scalars (np.float16(-60000)..np.float16(60000): vmax - vmin = inf) are not modelled (A1); float32 limits are in the bounded sweep",
     "while the [numpy-int-scalar-limits] clauses of BaseInterval.__call__ are open findings, _set_limits / __init__ additionally promise that the frozen limits are plain Python numbers "
     "(that is what makes CustomNormalization(data=...) correct for NumPy-scalar limits today); the clause is dropped automatically once the baseline records those clauses as proved (NPI_OPEN)",
     "0-d inputs, python lists/scalars as `value`, np.bool_ limits: not modelled deductively (0-d is in the bounded checks)",
+    "manual limits: the value domain of the constructor / entry-point contracts is ANY real number of any kind (Python int / float incl. NumPy floats, NumPy fixed-width integer scalar), "
+    "exact zeros included (clauses tagged [limit-is-exactly-0(...)]); a BOOLEAN image is the documented exception (its limits are always 0, 1)",
+    "entry points are under contract for: real-valued float / integer arrays, norm in {None + limit / quantile keywords, dict, NormalizationConfig, preset name}, figax given; "
+    "complex and boolean images, show_2d's grid / argument broadcasting (_normalize_show_args_to_grid) are not covered deductively",
 ]
 EXPLANATION = ("VCs generated from the real source of all functions of custom_normalizations.py (6 stretch classes' __call__ and inverse, 3 get_limits, BaseInterval.__call__/inverse, "
-               "CustomNormalization.__init__/_set_limits/__call__/inverse, _resolve_normalization incl. the preset lambdas) on a pointwise array abstraction with explicit NaN / +-inf flags; "
+               "CustomNormalization.__init__/_set_limits/__call__/inverse, _resolve_normalization incl. the preset lambdas) and of the display entry points _show_2d_array / "
+               "_show_2d_combined of visualization.py (callees used through their contracts: the normaliser they build receives the resolved configuration and the caller's array, "
+               "and limits given by the caller are its limits) on a pointwise array abstraction with explicit NaN / +-inf flags; "
                "round trips stretch(inverse(y)) = y proved by symbolic execution of the three real functions involved; discharged by z3 / cvc5")
 REPLAY = {}
